@@ -109,6 +109,16 @@ def check_1090(rng, tier, report):
         out, alive, rc, err, ferr = run_1090(script + [("sleep", 0.12)], settle=0.2)
         got = parse_1090_stdout(out)
         report("1090/split-at-%d" % p, alive and got == w, {"alive": alive, "stderr": err[-200:], "got": got, "expected": w})
+    # a malformed line that arrives in two segments separated by more than the read timeout, with bytes that are not UTF-8 in the *second*
+    # segment (a reader that validates each segment on arrival must not lose the line ending that came with the invalid bytes), an empty
+    # second segment, and an invalid first segment - each followed by valid lines that must all be decoded (seed C16_g)
+    v1 = fline(gentrack.adsb(0x4840D6, gentrack.me_ident(4, 0, "KLM1023"))); v2 = fline(gentrack.adsb(0x406B90, gentrack.me_ident(4, 0, "BAW12")))
+    wantv = [parse_line(v1).hex(), parse_line(v2).hex()]
+    for name, a, b in (("non-utf8-second-segment", b"*8D40", b"\xff\xfe621D;\n"), ("non-utf8-first-segment", b"*8D\xff\xfe", b"40621D;\n"),
+                       ("non-utf8-both", b"\xc3", b"\x28;\n"), ("utf8-split-inside-a-character", b"*\xc3", b"\xa9;\n"), ("lone-newline-late", b"*8D40\xff", b"\n")):
+        out, alive, rc, err, ferr = run_1090([("send", v1 + a), ("sleep", 0.3), ("send", b + v2), ("sleep", 0.15)], settle=0.2)
+        got = parse_1090_stdout(out)
+        report("1090/" + name, alive and got == wantv, {"alive": alive, "stderr": err[-200:], "got": got, "expected": wantv})
     # malformed only: must stay alive
     out, alive, rc, err, ferr = run_1090([("send", b"".join(MALFORMED))] + [("sleep", 0.2)])
     report("1090/malformed-only", alive and parse_1090_stdout(out) == [], {"alive": alive, "stderr": err[-300:], "rendered": parse_1090_stdout(out)})
@@ -176,6 +186,15 @@ def check_radar_stream(rng, tier, report):
         r.send(b"q"); st2 = r.wait_exit(); r.kill(); f.stop()
         report("radar/" + name + "every-malformed-line", alive and got == wantm and st2 == 0, {"alive_during_feed": alive, "rows": got, "expected": wantm, "exit_after_q": st2,
                "panic": "panicked" in r.raw.decode(errors="ignore")})
+    # the same two-segment malformed lines (non-UTF-8 bytes after a pause) for radar: the valid lines around them are counted
+    v1 = fline(gentrack.adsb(0x4840D6, gentrack.me_ident(4, 0, "KLM1023"))); v2 = fline(gentrack.adsb(0x406B90, gentrack.me_ident(4, 0, "BAW12")))
+    script = []
+    for a, b in ((b"*8D40", b"\xff\xfe621D;\n"), (b"*8D\xff\xfe", b"40621D;\n"), (b"*\xc3", b"\xa9;\n"), (b"*8D40\xff", b"\n")):
+        script += [("send", v1 + a), ("sleep", 0.3), ("send", b + v2), ("sleep", 0.1)]
+    r, f, snap, st = run_radar_feed(script + [("sleep", 2.0)], wait=0.8)
+    got = airplanes_rows(snap); alive = st is None
+    r.send(b"q"); st2 = r.wait_exit(); r.kill(); f.stop()
+    report("radar/non-utf8-after-a-pause", alive and got == {"4840d6": 4, "406b90": 4} and st2 == 0, {"alive_during_feed": alive, "rows": got, "expected": {"4840d6": 4, "406b90": 4}, "exit_after_q": st2})
     # disconnect without retry: clean exit
     r, f, snap, st = run_radar_feed([("send", b"".join(lines[:10])), ("sleep", 1.0), ("close",)], wait=1.5)
     st = r.wait_exit()
